@@ -1,156 +1,34 @@
 #!/venv/bin/python
-"""Translator: /repo's *current* source -> lean/WzVerif/Gen/*.lean.
-
-Every generator below either evaluates objects of the live werkzeug modules
-(compiled regexes, dict/set literals, small pure decision functions) over a
-complete finite domain, or collects literals from the AST. The emitted Lean
-terms are what the `decide` obligations and the proofs in Props/ are checked
-against on every run, so a source change that alters a table alters the term
-the Lean kernel checks.
-
-Usage: extract.py [name ...]   (no names = all). Files are rewritten only when
-their content changes, so `lake build` stays incremental.
-"""
-from __future__ import annotations
-
-import ast
+"""Translator entry point: /repo's current source -> lean/WzVerif/Gen/*.lean (see extract_lib.py)."""
 import importlib
 import os
 import sys
 
-REPO = os.environ.get("WZ_REPO", "/repo")
-GEN = os.path.join(os.path.dirname(os.path.abspath(__file__)), "..", "lean", "WzVerif", "Gen")
-sys.path.insert(0, os.path.join(REPO, "src"))
+HERE = os.path.dirname(os.path.abspath(__file__))
+sys.path.insert(0, HERE)
+import extract_lib  # noqa: E402
+from extract_lib import GENERATORS  # noqa: E402
 
-HEADER = "-- GENERATED by tools/extract.py from {src} -- do not edit.\n"
-
-
-def lean_bool(b):
-    return "true" if b else "false"
-
-
-def lean_bytes(bs):
-    return "[" + ", ".join(str(b) for b in bs) + "]"
-
-
-def lean_str(s: str) -> str:
-    out = []
-    for ch in s:
-        o = ord(ch)
-        if ch == '"':
-            out.append('\\"')
-        elif ch == "\\":
-            out.append("\\\\")
-        elif 32 <= o < 127:
-            out.append(ch)
-        else:
-            out.append("\\u{%x}" % o)
-    return '"' + "".join(out) + '"'
-
-
-def lean_list(items, per_line=16):
-    lines = []
-    for i in range(0, len(items), per_line):
-        lines.append("  " + ", ".join(items[i : i + per_line]))
-    return "[\n" + ",\n".join(lines) + "]"
-
-
-def write(name, body, src):
-    path = os.path.join(GEN, name + ".lean")
-    text = HEADER.format(src=src) + body
-    old = None
-    if os.path.exists(path):
-        with open(path) as f:
-            old = f.read()
-    if old != text:
-        os.makedirs(GEN, exist_ok=True)
-        with open(path + ".tmp", "w") as f:
-            f.write(text)
-        os.replace(path + ".tmp", path)
-        return True
-    return False
-
-
-GENERATORS = {}
-
-
-def generator(name):
-    def deco(fn):
-        GENERATORS[name] = fn
-        return fn
-
-    return deco
-
-
-# --------------------------------------------------------------------------
-# C13 cookie tables
-
-
-@generator("Cookie")
-def gen_cookie():
-    http = importlib.import_module("werkzeug.http")
-    sans = importlib.import_module("werkzeug.sansio.http")
-    noq = [bool(http._cookie_no_quote_re.fullmatch(chr(c))) for c in range(256)]
-    # the pattern is compiled with re.ASCII: nothing above 0xff may match
-    high = any(http._cookie_no_quote_re.fullmatch(chr(c)) for c in range(256, 0x110000))
-    slash = [bool(http._cookie_slash_re.fullmatch(bytes([b]))) for b in range(256)]
-    smap = [http._cookie_slash_map.get(bytes([b])) for b in range(256)]
-    # multi-byte keys in the map would never be hit by the single-byte regex
-    extra = sorted(k for k in http._cookie_slash_map if len(k) != 1)
-    # unslash: which single bytes does `.` accept after a backslash, and the octal form
-    un = sans._cookie_unslash_re
-    dot = [bool(un.fullmatch(b"\\" + bytes([b]))) for b in range(256)]
-    octal = []
-    for a in range(256):
-        # first digit class / following digit class of the 3-digit escape
-        octal.append(bool(un.fullmatch(b"\\" + bytes([a]) + b"00")) and len(un.fullmatch(b"\\" + bytes([a]) + b"00").group(1)) == 3)
-    octal2 = []
-    for a in range(256):
-        m = un.fullmatch(b"\\0" + bytes([a]) + b"0")
-        octal2.append(bool(m) and len(m.group(1)) == 3)
-    spaces = [c for c in range(0x110000) if chr(c).isspace()]
-    re_spaces = [c for c in range(0x110000) if __import__("re").fullmatch(r"\s", chr(c), __import__("re").ASCII)]
-    body = f"""namespace Wz.Gen.Cookie
-
-/-- `_cookie_no_quote_re.fullmatch(chr c)` for c = 0..255. -/
-def noQuote : List Bool := {lean_list([lean_bool(b) for b in noq])}
-
-/-- does `_cookie_no_quote_re` accept any single code point above 0xff? -/
-def noQuoteHigh : Bool := {lean_bool(high)}
-
-/-- `_cookie_slash_re.fullmatch(bytes([b]))` for b = 0..255. -/
-def slashSet : List Bool := {lean_list([lean_bool(b) for b in slash])}
-
-/-- `_cookie_slash_map.get(bytes([b]))` for b = 0..255. -/
-def slashMap : List (Option (List UInt8)) := {lean_list([("none" if v is None else "some " + lean_bytes(v)) for v in smap], 6)}
-
-/-- number of keys of `_cookie_slash_map` that are not a single byte. -/
-def slashMapOddKeys : Nat := {len(extra)}
-
-/-- `_cookie_unslash_re.fullmatch(b"\\\\" + bytes([b]))`: bytes accepted as a one-byte escape. -/
-def unslashDot : List Bool := {lean_list([lean_bool(b) for b in dot])}
-
-/-- bytes accepted as the first digit of a three-digit octal escape. -/
-def unslashOct1 : List Bool := {lean_list([lean_bool(b) for b in octal])}
-
-/-- bytes accepted as a later digit of a three-digit octal escape. -/
-def unslashOct23 : List Bool := {lean_list([lean_bool(b) for b in octal2])}
-
-/-- code points for which Python's `str.isspace()` holds (what `str.strip()` removes). -/
-def pySpaces : List Nat := {lean_list([str(c) for c in spaces])}
-
-/-- code points matched by `\\s` under `re.ASCII`. -/
-def reSpaces : List Nat := {lean_list([str(c) for c in re_spaces])}
-
-end Wz.Gen.Cookie
-"""
-    return write("Cookie", body, "src/werkzeug/http.py, src/werkzeug/sansio/http.py")
+IMPORT_ERRORS = []
+for fn in sorted(os.listdir(os.path.join(HERE, "gen"))):
+    if fn.endswith(".py") and not fn.startswith("_"):
+        try:
+            importlib.import_module("gen." + fn[:-3])
+        except Exception as e:  # a broken generator module must not take the others down
+            IMPORT_ERRORS.append(f"{fn}: {type(e).__name__}: {e}")
 
 
 def main(argv):
     names = argv or list(GENERATORS)
     changed = []
+    for e in IMPORT_ERRORS:
+        print("extract: generator module failed to import:", e)
+    if IMPORT_ERRORS and not argv:
+        sys.exit(1)
     for n in names:
+        if n not in GENERATORS:
+            print("extract: unknown generator", n)
+            sys.exit(1)
         if GENERATORS[n]():
             changed.append(n)
     print("extract: regenerated", ",".join(changed) if changed else "nothing (up to date)")
